@@ -206,7 +206,7 @@ func sortedKeys(m map[string]int) []string {
 
 // ---------- families ----------
 
-var baseLabels = []string{"F1", "F2", "F3", "E1", "E2", "Z1", "W1", "W2", "N1", ""}
+var baseLabels = []string{"F1", "F2", "F3", "E1", "E2", "Z1", "W1", "W2", "N1", "N2", ""}
 var deltaLabels = []string{"", "FD1", "FD2", "ED1", "ED2", "ZD1", "W1", "N1", "N2", "F2", "E1"}
 
 func (g *gen) randURL(r *Rng, pools ...[]string) string {
@@ -236,7 +236,7 @@ func (g *gen) randSet(r *Rng, u string) *hop {
 	case 1:
 		return g.set(u, "", Pick(r, deltaLabels))
 	}
-	b := Pick(r, baseLabels[:9])
+	b := Pick(r, baseLabels[:10])
 	if r.Chance(3, 5) {
 		b = Pick(r, []string{"F1", "F2", "F3"})
 	}
